@@ -256,8 +256,29 @@ def run(ctx):
         if clause == "BadCase":
             raise MachineryError(f"malformed case {k}")
         m = meta[k]
-        ctx.violation(clause, {"stage": "major", "clause": clause, "gene": m["gene"].split("/")[0]}, m,
-                      f"case {k} ({m['tag']}) struct={m['struct']} gap={m['gap']} reported={m['result']}")
+        fp = {"stage": "major", "clause": clause, "gene": m["gene"].split("/")[0]}
+        if clause in ("Optimal", "CompleteWithinGap", "NoneReportedButAdmissibleExists"):
+            fp["cbc_objective_worse_than_scip_on_same_model"] = _backend_flag(m)  # attribution only (harness/backend.py)
+        ctx.violation(clause, fp, m, f"case {k} ({m['tag']}) struct={m['struct']} gap={m['gap']} reported={m['result']}")
+
+
+def _backend_flag(m):
+    """Re-run the recorded case with every CBC solve exported; True iff SCIP beats an objective CBC called optimal."""
+    from .. import backend
+
+    try:
+        g = load_gene(*m["gene"].split("/"))
+        table = {int(p): v for p, v in m["table"].items()}
+        low = {int(p): {o: tuple(x) for o, x in v.items()} for p, v in (m.get("low") or {}).items()} or None
+        indels = {(int(a), b): (c, d) for a, b, c, d in m.get("indels", [])} or None
+        cov = evidence.make_coverage(g, _profile(gap=m["gap"], **m.get("params", {})), table, low, indels)
+        recs = []
+        with backend.watch(recs), aldyenv.quiet_stderr():
+            run_major(g, cov, m["struct"])
+        with aldyenv.quiet_stderr():
+            return bool(backend.worse_than_scip(recs))
+    except Exception:  # noqa: BLE001 - attribution must never turn a violation into a machinery failure
+        return False
 
 
 def replay(path):
